@@ -91,9 +91,11 @@ func (a *Analysis) ruleW() {
 			continue
 		}
 		hasExec := false
-		for _, cc := range callsIn(callee) {
-			if n := calleeName(cc); n == "(*html/template.Template).Execute" || n == "(*text/template.Template).Execute" {
-				hasExec = true
+		for f := range a.reachableFrom(callee) {
+			for _, cc := range callsIn(f) {
+				if n := calleeName(cc); n == "(*html/template.Template).Execute" || n == "(*text/template.Template).Execute" {
+					hasExec = true
+				}
 			}
 		}
 		if !hasExec {
@@ -173,6 +175,28 @@ func (a *Analysis) checkMainStops(c ssa.CallInstruction) {
 		}
 	}
 	r.Check(stops, "W2", "main/stop-on-error", a.P.InstrPos(c), "", "main stops when an update fails", "main carries on after a failed update: a truncated or missing list file could be committed")
+}
+
+// reachableFrom: fn and the module functions it (transitively) calls statically.
+func (a *Analysis) reachableFrom(fn *ssa.Function) map[*ssa.Function]bool {
+	seen := map[*ssa.Function]bool{}
+	var walk func(f *ssa.Function)
+	walk = func(f *ssa.Function) {
+		if f == nil || seen[f] || len(f.Blocks) == 0 {
+			return
+		}
+		seen[f] = true
+		for _, c := range callsIn(f) {
+			if g := c.Common().StaticCallee(); g != nil && a.isModuleFunc(g) {
+				walk(g)
+			}
+		}
+		for _, af := range f.AnonFuncs {
+			walk(af)
+		}
+	}
+	walk(fn)
+	return seen
 }
 
 func (a *Analysis) genTable() (map[string]string, string, *ssa.Global) {
@@ -390,6 +414,36 @@ func returnedValue(ret *ssa.Return, i int) ssa.Value {
 	return v
 }
 
+// renderPath renders a string value built from constants and string parameters, the
+// parameters shown as {name}; ok=false if anything else is mixed in.
+func renderPath(v AV) (string, bool) {
+	s, ok := v.(StrV)
+	if !ok {
+		return "", false
+	}
+	switch s.Kind {
+	case skConst:
+		return s.S, true
+	case skRaw:
+		return "{" + s.S + "}", true
+	case skConcat:
+		out := ""
+		for _, p := range s.Parts {
+			t, ok := renderPath(p)
+			if !ok {
+				return "", false
+			}
+			out += t
+		}
+		return out, true
+	}
+	return "", false
+}
+
+// ruleW2 decides the shape of the generator's update function on its abstract evaluation
+// (module helpers are entered, so splitting it into fetch / parse / render does not matter):
+// what is rendered is strings.Split(string(<body of GET <upstream>/<stem>.txt>), "\n") and the
+// variable name, into <outdir>/<stem>.go opened truncating; no failing step is passed over.
 func (a *Analysis) ruleW2(upd *ssa.Function) {
 	r := a.R
 	fk := fnKey(upd)
@@ -399,298 +453,249 @@ func (a *Analysis) ruleW2(upd *ssa.Function) {
 		return
 	}
 	pathP, varP := upd.Params[0], upd.Params[1]
-	// the Execute call
-	var exec *ssa.Call
-	for _, c := range callsIn(upd) {
-		n := calleeName(c)
-		if n == "(*html/template.Template).Execute" || n == "(*text/template.Template).Execute" {
-			if cc, ok := c.(*ssa.Call); ok {
-				exec = cc
+	e := a.eval(upd, &Ctx{Name: "generator"})
+	for _, ev := range e.Events {
+		if ev.Status == Undecided && (ev.Rule == "P5" || ev.Rule == "U" || ev.Rule == "X") {
+			r.Unk("W2", fk+"/evaluation", a.P.InstrPos(ev.Instr), "", "the update function is not fully evaluated: %s", ev.Msg)
+		}
+	}
+	isExec := func(n string) bool {
+		return n == "(*html/template.Template).Execute" || n == "(*text/template.Template).Execute"
+	}
+	var execRec *CallRec
+	nExec := 0
+	for i := range e.Calls {
+		if isExec(e.Calls[i].Callee) {
+			execRec = &e.Calls[i]
+			nExec++
+		}
+	}
+	if execRec == nil || nExec != 1 {
+		r.Unk("W2", fk+"/execute", pos, "", "expected exactly one template Execute call reachable from %s, found %d", fk, nExec)
+		return
+	}
+	exec, _ := execRec.Instr.(*ssa.Call)
+	ep := a.P.InstrPos(execRec.Instr)
+	if exec == nil || len(execRec.Args) < 3 {
+		r.Unk("W2", fk+"/execute", ep, "", "Execute is not an ordinary call")
+		return
+	}
+	// ---- the data: a struct with the word slice and the variable name
+	var stt *types.Struct
+	dv := through(exec.Call.Args[2])
+	dt := dv.Type()
+	if pt, ok := dt.Underlying().(*types.Pointer); ok {
+		dt = pt.Elem()
+	}
+	stt, _ = dt.Underlying().(*types.Struct)
+	data, isVec := execRec.Args[2].(VecV)
+	if stt == nil || !isVec || len(data.Elems) != stt.NumFields() {
+		r.Unk("W2", fk+"/data", ep, "", "the value given to Execute (%v) is not a struct of the generator whose fields are known", execRec.Args[2])
+		return
+	}
+	var words *TokensV
+	wordsField, varField := "", ""
+	for i, v := range data.Elems {
+		name := stt.Field(i).Name()
+		switch x := v.(type) {
+		case *TokensV:
+			words, wordsField = x, name
+		case StrV:
+			if x.Kind == skRaw && x.S == varP.Name() {
+				varField = name
 			}
 		}
 	}
-	if exec == nil {
-		r.Unk("W2", fk+"/execute", pos, "", "no template Execute call found in %s", fk)
-		return
-	}
-	ep := a.P.InstrPos(exec)
-	// data operand: a struct literal with the word slice and the variable name
-	data := through(exec.Call.Args[2])
-	var alloc *ssa.Alloc
-	if ld, ok := data.(*ssa.UnOp); ok && ld.Op == token.MUL {
-		alloc, _ = ld.X.(*ssa.Alloc)
-	}
-	if alloc == nil {
-		r.Unk("W2", fk+"/data", ep, "", "the value given to Execute is not a struct literal")
-		return
-	}
-	fields := map[string]ssa.Value{}
-	st, _ := alloc.Type().Underlying().(*types.Pointer).Elem().Underlying().(*types.Struct)
-	for _, ref := range *alloc.Referrers() {
-		fa, ok := ref.(*ssa.FieldAddr)
-		if !ok || st == nil {
-			continue
-		}
-		for _, rr := range *fa.Referrers() {
-			if s, ok := rr.(*ssa.Store); ok && s.Addr == ssa.Value(fa) {
-				fields[st.Field(fa.Field).Name()] = s.Val
-			}
-		}
-	}
-	// the words
-	var words ssa.Value
-	var wordsField, varField string
-	for name, v := range fields {
-		if _, ok := v.Type().Underlying().(*types.Slice); ok {
-			words, wordsField = v, name
-		} else if through(v) == ssa.Value(varP) {
-			varField = name
-		}
-	}
+	a.genVarField, a.genWordsField = varField, wordsField
 	if varField == "" {
 		r.Bad("W2", fk+"/variable", ep, "", "the template's variable name is not the update function's second argument")
 	} else {
 		r.OK("W2", fk+"/variable", ep, "", "template field %s = parameter %s", varField, varP.Name())
 	}
-	chainOK := false
-	var get *ssa.Call
-	if sp, ok := words.(*ssa.Call); ok && calleeName(sp) == "strings.Split" {
-		sep, _ := strConst(sp.Call.Args[1])
-		if sep != "\n" {
-			r.Bad("W2", fk+"/pipeline", a.P.InstrPos(sp), "", "the downloaded text is split on %q, not on \"\\n\"", sep)
-		} else if cv, ok := sp.Call.Args[0].(*ssa.Convert); !ok {
-			r.Bad("W2", fk+"/pipeline", a.P.InstrPos(sp), "", "the text given to strings.Split is not the downloaded bytes converted to string (%s): something transforms the words", describeValue(sp.Call.Args[0]))
-		} else if ex, ok := cv.X.(*ssa.Extract); !ok || ex.Index != 0 {
-			r.Bad("W2", fk+"/pipeline", a.P.InstrPos(sp), "", "the split text does not come straight from the download")
-		} else if ra, ok := ex.Tuple.(*ssa.Call); !ok || (calleeName(ra) != "io/ioutil.ReadAll" && calleeName(ra) != "io.ReadAll") {
-			r.Bad("W2", fk+"/pipeline", a.P.InstrPos(sp), "", "the split text is not the result of ReadAll")
-		} else {
-			// reader = resp.Body of http.Get(...)
-			rd := through(ra.Call.Args[0])
-			if ld, ok := rd.(*ssa.UnOp); ok && ld.Op == token.MUL {
-				if fa, ok := ld.X.(*ssa.FieldAddr); ok {
-					if rex, ok := fa.X.(*ssa.Extract); ok && rex.Index == 0 {
-						if g, ok := rex.Tuple.(*ssa.Call); ok && calleeName(g) == "net/http.Get" {
-							get = g
-							chainOK = true
-						}
-					}
-				}
+	// ---- the words: Split(string(download(url)), "\n"), nothing in between
+	var url AV
+	switch {
+	case words == nil:
+		desc := "no field holds the result of strings.Split"
+		for i, v := range data.Elems {
+			if _, isSlice := stt.Field(i).Type().Underlying().(*types.Slice); isSlice {
+				desc = fmt.Sprintf("field %s is %v", stt.Field(i).Name(), v)
 			}
-			if !chainOK {
-				r.Bad("W2", fk+"/pipeline", a.P.InstrPos(ra), "", "ReadAll does not read the body of the http.Get response")
+		}
+		r.Bad("W2", fk+"/pipeline", ep, "", "the template's word slice is not strings.Split(string(download), \"\\n\"): %s", desc)
+	case words.Fn != "strings.Split":
+		r.Bad("W2", fk+"/pipeline", a.P.InstrPos(words.Site), "", "the downloaded text is cut up by %s, not by strings.Split on \"\\n\"", words.Fn)
+	default:
+		sep, _ := words.Sep.(StrV)
+		in, _ := words.In.(StrV)
+		switch {
+		case sep.Kind != skConst || sep.S != "\n":
+			r.Bad("W2", fk+"/pipeline", a.P.InstrPos(words.Site), "", "the downloaded text is split on %v, not on \"\\n\"", words.Sep)
+		case in.Kind != skSrc || in.S != "download":
+			r.Bad("W2", fk+"/pipeline", a.P.InstrPos(words.Site), "", "the text given to strings.Split is %v, not the downloaded bytes converted to string: something transforms the words (or they do not come from the download)", words.In)
+		default:
+			url = in.X
+			r.OK("W2", fk+"/pipeline", ep, "", "field %s = strings.Split(string(ReadAll(Get(url).Body)), \"\\n\") with nothing in between", wordsField)
+		}
+	}
+	// ---- URL and output name use the same stem
+	if url != nil {
+		s, ok := renderPath(url)
+		want := "{" + pathP.Name() + "}.txt"
+		if !ok || !strings.HasSuffix(s, "bip-0039/"+want) || strings.Count(s, "{") != 1 {
+			if !ok {
+				s = fmt.Sprint(url)
+			}
+			r.Bad("W2", fk+"/url", ep, "", "download URL is %q; expected <upstream>/bip-0039/%s", s, want)
+		} else {
+			r.OK("W2", fk+"/url", ep, "", "downloads %s", s)
+		}
+	}
+	// ---- output file (possibly behind a bufio.Writer, which must then be flushed)
+	w := execRec.Args[1]
+	var bw *ResV
+	if rv, ok := w.(ResV); ok && rv.Kind == "bufio.Writer" {
+		b := rv
+		bw = &b
+		w = rv.A
+	}
+	file, isFile := w.(ResV)
+	okOut := false
+	if isFile && file.Kind == "os.File" {
+		fp := a.P.InstrPos(file.Site)
+		if file.Flags == nil {
+			okOut = true
+			r.OK("W2", fk+"/truncate", fp, "", "os.Create truncates the output")
+		} else {
+			fv, _ := file.Flags.(IntV)
+			fl, okc := fv.Const()
+			cr, _ := a.osConst("O_CREATE")
+			tr, _ := a.osConst("O_TRUNC")
+			wo, _ := a.osConst("O_WRONLY")
+			rw, _ := a.osConst("O_RDWR")
+			ap, _ := a.osConst("O_APPEND")
+			switch {
+			case !okc:
+				r.Unk("W2", fk+"/truncate", fp, "", "open flags are not constant")
+			case fl&tr == 0:
+				r.Bad("W2", fk+"/truncate", fp, "", "the output file is opened without O_TRUNC: a shorter list leaves the tail of the old file in place")
+			case fl&cr == 0 || (fl&wo == 0 && fl&rw == 0) || fl&ap != 0:
+				r.Bad("W2", fk+"/truncate", fp, "", "open flags %#x lack O_CREATE or write access, or append", fl)
+			default:
+				okOut = true
+				r.OK("W2", fk+"/truncate", fp, "", "opened with O_CREATE|O_TRUNC and write access")
+			}
+		}
+		if okOut {
+			s, ok := renderPath(file.A)
+			want := a.genOutDir() + "/{" + pathP.Name() + "}.go"
+			if !ok || s != want {
+				if !ok {
+					s = fmt.Sprint(file.A)
+				}
+				r.Bad("W2", fk+"/output-name", fp, "", "output path is %q; expected %q (same stem as the download)", s, want)
+			} else {
+				r.OK("W2", fk+"/output-name", fp, "", "writes %s", s)
 			}
 		}
 	} else {
-		r.Bad("W2", fk+"/pipeline", ep, "", "the template's word slice (%s) is not strings.Split(string(download), \"\\n\")", describeValue(words))
+		r.Add("W2", fk+"/output", ep, "", Undecided, "the Execute target (%v) is not a file opened by os.OpenFile/os.Create (directly or behind a bufio.Writer)", execRec.Args[1])
 	}
-	if chainOK {
-		r.OK("W2", fk+"/pipeline", ep, "", "field %s = strings.Split(string(ReadAll(Get(url).Body)), \"\\n\") with nothing in between", wordsField)
-	}
-	// URL and output name use the same stem
-	if get != nil {
-		ps, ok := pathPieces(get.Call.Args[0])
-		s := joinPieces(ps)
-		want := "{" + pathP.Name() + "}.txt"
-		if !ok || !strings.HasSuffix(s, "bip-0039/"+want) || strings.Count(s, "{") != 1 {
-			r.Bad("W2", fk+"/url", a.P.InstrPos(get), "", "download URL is %q; expected <upstream>/bip-0039/%s", s, want)
-		} else {
-			r.OK("W2", fk+"/url", a.P.InstrPos(get), "", "downloads %s", s)
+	// nothing else is done with the output
+	for _, c := range e.Calls {
+		if isExec(c.Callee) || strings.HasSuffix(c.Callee, ".Close") || c.Callee == "invoke:Close" || c.Callee == "bufio.NewWriter" || c.Callee == "bufio.NewWriterSize" || c.Callee == "(*bufio.Writer).Flush" {
+			continue
 		}
-	}
-	// output file (possibly behind a bufio.Writer, which must then be flushed)
-	w := through(exec.Call.Args[1])
-	var bw ssa.Value
-	if c, ok := w.(*ssa.Call); ok && (calleeName(c) == "bufio.NewWriter" || calleeName(c) == "bufio.NewWriterSize") {
-		bw = c
-		w = through(c.Call.Args[0])
-	}
-	okOut := false
-	if ex, ok := w.(*ssa.Extract); ok && ex.Index == 0 {
-		if oc, ok := ex.Tuple.(*ssa.Call); ok {
-			switch calleeName(oc) {
-			case "os.Create":
-				okOut = true
-				r.OK("W2", fk+"/truncate", a.P.InstrPos(oc), "", "os.Create truncates the output")
-			case "os.OpenFile":
-				fl, okc := intConst(oc.Call.Args[1])
-				cr, _ := a.osConst("O_CREATE")
-				tr, _ := a.osConst("O_TRUNC")
-				wo, _ := a.osConst("O_WRONLY")
-				rw, _ := a.osConst("O_RDWR")
-				ap, _ := a.osConst("O_APPEND")
-				switch {
-				case !okc:
-					r.Unk("W2", fk+"/truncate", a.P.InstrPos(oc), "", "open flags are not constant")
-				case fl&tr == 0:
-					r.Bad("W2", fk+"/truncate", a.P.InstrPos(oc), "", "the output file is opened without O_TRUNC: a shorter list leaves the tail of the old file in place")
-				case fl&cr == 0 || (fl&wo == 0 && fl&rw == 0) || fl&ap != 0:
-					r.Bad("W2", fk+"/truncate", a.P.InstrPos(oc), "", "open flags %#x lack O_CREATE or write access, or append", fl)
-				default:
-					okOut = true
-					r.OK("W2", fk+"/truncate", a.P.InstrPos(oc), "", "opened with O_CREATE|O_TRUNC and write access")
-				}
-			}
-			if okOut {
-				ps, ok := pathPieces(oc.Call.Args[0])
-				s := joinPieces(ps)
-				want := a.genOutDir() + "/{" + pathP.Name() + "}.go"
-				if !ok || s != want {
-					r.Bad("W2", fk+"/output-name", a.P.InstrPos(oc), "", "output path is %q; expected %q (same stem as the download)", s, want)
-				} else {
-					r.OK("W2", fk+"/output-name", a.P.InstrPos(oc), "", "writes %s", s)
-				}
+		touches := false
+		for _, arg := range append(append([]AV{}, c.Args...), c.Recv) {
+			if rv, ok := arg.(ResV); ok && (rv.Kind == "os.File" || rv.Kind == "bufio.Writer") {
+				touches = true
 			}
 		}
-	}
-	if !okOut {
-		if _, seen := fields["?"]; !seen {
-			r.Add("W2", fk+"/output", ep, "", Undecided, "the Execute target is not a file opened by os.OpenFile/os.Create in %s", fk)
+		if touches {
+			r.Bad("W2", fk+"/output-other-use", a.P.InstrPos(c.Instr), "", "the output file is also handed to %s: the file must contain the rendered template and nothing else", c.Callee)
 		}
 	}
-	// error discipline: no failing step is passed over.  For every call that can fail, either its
-	// error is the function's result as it stands (`return f()`), or it is compared with nil and
-	//   - on the non-nil edge every return gives back that error or a freshly built one (a wrapped
-	//     message), and the rendering step is not reached;
-	//   - on the nil edge the run goes on to the rendering step (for steps before it).
-	// A return of nil must come after the rendering step (and after the flush of a buffered writer).
-	nErr := 0
-	okErr := true
-	bad := func(at ssa.Instruction, format string, args ...any) {
-		r.Bad("W2", fk+"/errors", a.P.InstrPos(at), "", format, args...)
-		okErr = false
-	}
-	isCtor := func(v ssa.Value) bool {
-		c, ok := v.(*ssa.Call)
+	// ---- error discipline: wherever the function can return nil, every step that can fail and
+	// was executed on the way is known to have succeeded (its error was compared with nil and
+	// this is the nil edge) — except the step whose own error is what is being returned
+	exempt := func(site ssa.Instruction) bool {
+		c, ok := site.(ssa.CallInstruction)
 		if !ok {
-			return false
-		}
-		switch calleeName(c) {
-		case "fmt.Errorf", "errors.New":
 			return true
 		}
-		return false
+		if _, isDefer := site.(*ssa.Defer); isDefer {
+			return true
+		}
+		n := calleeName(c)
+		return strings.HasSuffix(n, ".Close") || n == "invoke:Close"
 	}
-	before := func(x, y ssa.Instruction) bool { // x is executed before y on every path to y
-		if x == y {
-			return false
+	okErr := true
+	nSucc := 0
+	var sites []ssa.Instruction
+	for site := range e.errObj {
+		if !exempt(site) {
+			sites = append(sites, site)
 		}
-		if x.Block() == y.Block() {
-			for _, in := range x.Block().Instrs {
-				if in == x {
-					return true
-				}
-				if in == y {
-					return false
-				}
-			}
-		}
-		return x.Block().Dominates(y.Block())
 	}
-	var flush *ssa.Call
-	for _, c := range callsIn(upd) {
-		call, ok := c.(*ssa.Call)
-		if !ok {
-			continue // deferred Close calls are exempt (noted in DESIGN)
-		}
-		if bw != nil && calleeName(call) == "(*bufio.Writer).Flush" && len(call.Call.Args) == 1 && call.Call.Args[0] == bw && before(exec, call) {
-			flush = call
-		}
-		res := call.Call.Signature().Results()
-		if res.Len() == 0 || !isErrorType(res.At(res.Len()-1).Type()) || isCtor(call) {
+	sort.Slice(sites, func(i, j int) bool { return instrKey(sites[i]) < instrKey(sites[j]) })
+	for _, x := range topExits(e, upd) {
+		if len(x.Vals) != 1 {
+			r.Unk("W2", fk+"/errors", a.P.InstrPos(x.Ret), "", "the update function does not return exactly one error")
+			okErr = false
 			continue
 		}
-		if call != exec && !before(call, exec) && !before(exec, call) {
-			continue // on a side branch (an error path): not a step of the pipeline
-		}
-		nErr++
-		var ev ssa.Value = call
-		if res.Len() > 1 {
-			ev = nil
-			for _, ref := range *call.Referrers() {
-				if ex, ok := ref.(*ssa.Extract); ok && ex.Index == res.Len()-1 {
-					ev = ex
-				}
-			}
-		}
-		if ev == nil {
-			bad(call, "the error of %s is discarded", calleeName(call))
+		ev := asErr(x.Vals[0])
+		certainlyFails := ev.Kind == ekFresh || ev.Kind == ekSentinel || ev.Kind == ekWrap || ev.NonNil
+		if certainlyFails {
 			continue
 		}
-		// the test against nil
-		var test *ssa.If
-		var errSucc, okSucc *ssa.BasicBlock
-		for _, ref := range *ev.Referrers() {
-			bo, ok := ref.(*ssa.BinOp)
-			if !ok || (bo.Op != token.NEQ && bo.Op != token.EQL) {
-				continue
-			}
-			if !(bo.X == ev && isNilConst(bo.Y)) && !(bo.Y == ev && isNilConst(bo.X)) {
-				continue
-			}
-			for _, br := range *bo.Referrers() {
-				if ifi, ok := br.(*ssa.If); ok {
-					test = ifi
-					if bo.Op == token.NEQ {
-						errSucc, okSucc = ifi.Block().Succs[0], ifi.Block().Succs[1]
-					} else {
-						okSucc, errSucc = ifi.Block().Succs[0], ifi.Block().Succs[1]
-					}
-				}
-			}
+		// this exit may report success.  If what it returns is the error of one call, handed on
+		// untested, it reports success exactly when that call succeeded: judge the state so refined.
+		state := x.State
+		if ev.Kind == ekFrom && ev.Site != nil {
+			state = x.State.clone()
+			e.applyOutcome(state, ev.Site, true)
 		}
-		if test == nil {
-			direct := false
-			for _, ret := range returnsOf(upd) {
-				if len(ret.Results) == 1 && returnedValue(ret, 0) == ev && before(call, ret) {
-					direct = true
-				}
+		rendered := false
+		for _, site := range sites {
+			c, ok := state[e.errObj[site]].(CellC)
+			if !ok {
+				continue // not executed on the way to this exit
 			}
-			switch {
-			case direct && !before(call, exec):
-				// a last step: its error is the function's result
-			case direct:
-				bad(call, "the error of %s is returned without the file having been rendered", calleeName(call))
-			default:
-				bad(call, "the error of %s is neither tested before the next step nor returned", calleeName(call))
+			isRet := ev.Kind == ekFrom && ev.Site == site
+			b, _ := c.V.(BoolV)
+			succeeded := b.Known && b.Val
+			if site == execRec.Instr && (succeeded || isRet) {
+				rendered = true
 			}
+			if succeeded || isRet {
+				continue
+			}
+			okErr = false
+			r.Bad("W2", fk+"/errors", a.P.InstrPos(x.Ret), "", "%s can return nil here although %s may have failed: its error is not tested on the way (or this is the failing edge)", fk, calleeName(site.(ssa.CallInstruction)))
+		}
+		if !rendered {
+			okErr = false
+			r.Bad("W2", fk+"/errors", a.P.InstrPos(x.Ret), "", "%s can return nil here without the template having been rendered successfully: a list file would be missing or incomplete without an error", fk)
 			continue
 		}
-		stops := len(errSucc.Preds) == 1
-		nret := 0
-		for _, ret := range returnsOf(upd) {
-			if !reaches(errSucc, ret.Block(), test.Block()) {
+		if bw != nil && bw.O != nil {
+			c, _ := state[bw.O].(CellC)
+			if b, ok := c.V.(BoolV); !ok || !b.Known || b.Val {
+				okErr = false
+				r.Bad("W2", fk+"/errors", a.P.InstrPos(x.Ret), "", "the template is rendered into a bufio.Writer that is not flushed before %s reports success: the tail of the file would be lost", fk)
 				continue
 			}
-			nret++
-			v := returnedValue(ret, 0)
-			if len(ret.Results) != 1 || !(v == ev || isCtor(v)) {
-				stops = false
-			}
 		}
-		if nret == 0 || (before(call, exec) && reaches(errSucc, exec.Block(), test.Block())) {
-			stops = false
-		}
-		goesOn := len(okSucc.Preds) == 1 && (!before(call, exec) || okSucc.Dominates(exec.Block()))
-		if !stops || !goesOn {
-			bad(test, "the error test after %s is inverted or incomplete: the run must stop (returning the error) exactly when the error is non-nil and go on to render the file otherwise", calleeName(call))
-		}
+		nSucc++
 	}
-	if bw != nil && flush == nil {
-		bad(exec, "the template is rendered into a bufio.Writer that is never flushed after Execute: the tail of the file would be lost")
-	}
-	// success is reported only after the last step
-	last := ssa.Instruction(exec)
-	if flush != nil {
-		last = flush
-	}
-	for _, ret := range returnsOf(upd) {
-		if len(ret.Results) == 1 && isNilConst(returnedValue(ret, 0)) && !before(last, ret) {
-			bad(ret, "%s returns nil on a path that has not passed %s: a list file would be missing or incomplete without an error", fk, calleeName(last.(ssa.CallInstruction)))
-		}
+	if nSucc == 0 && okErr {
+		okErr = false
+		r.Bad("W2", fk+"/errors", pos, "", "%s has no exit that reports success", fk)
 	}
 	if okErr {
-		r.OK("W2", fk+"/errors", pos, "", "all %d error results stop the run and reach main", nErr)
+		r.OK("W2", fk+"/errors", pos, "", "every exit that can report success has passed all %d fallible steps on their success edges", len(sites))
 	}
 	// ---- W3 template
 	a.ruleW3(exec)
@@ -816,8 +821,15 @@ func (a *Analysis) ruleW3(exec *ssa.Call) {
 		fail("header", "text before the variable name is %q, expected `package wordlist … var`", string(t0.Text))
 		okAll = false
 	}
-	if !isFieldPipe(a1.Pipe, "Variable") {
-		fail("variable", "the declared name is %s, expected {{.Variable}}", a1.String())
+	varName, wordsName := "Variable", "WordList"
+	if a.genVarField != "" {
+		varName = a.genVarField
+	}
+	if a.genWordsField != "" {
+		wordsName = a.genWordsField
+	}
+	if !isFieldPipe(a1.Pipe, varName) {
+		fail("variable", "the declared name is %s, expected {{.%s}}", a1.String(), varName)
 		okAll = false
 	}
 	if squeeze(string(t2.Text)) != "=[]string{" {
@@ -828,8 +840,8 @@ func (a *Analysis) ruleW3(exec *ssa.Call) {
 		fail("close", "text after the range is %q, expected `}`", string(t4.Text))
 		okAll = false
 	}
-	if !isFieldPipe(rg.Pipe, "WordList") || rg.ElseList != nil {
-		fail("range", "the loop is %s, expected {{range .WordList}} without else", rg.Pipe.String())
+	if !isFieldPipe(rg.Pipe, wordsName) || rg.ElseList != nil {
+		fail("range", "the loop is %s, expected {{range .%s}} without else", rg.Pipe.String(), wordsName)
 		okAll = false
 	}
 	// body: [ws] If(.){ `"` Action(.) `",` } [ws]
